@@ -91,6 +91,7 @@ def check(run, M, tier):
 
     # ---- E4
     _e4(run, M)
+    _inherited_routing(run, M, tier)
     # ---- E3
     fw = M.func("sigpy.mri.app._estimate_weights")
     cw = [o for o in VN(M, fw).run(fw.body, State()) if o.status == "return"]
@@ -172,6 +173,13 @@ def check(run, M, tier):
         run.check(ok and okg, "E2", "TotalVariationRecon wiring[%s]" % cond_text(o.conds)[:40], ft.loc(),
                   "G = FiniteDifference(A.ishape), proxg = L1Reg(G.oshape, lamda), g = lamda*sum|.|, all passed to LinearLeastSquares",
                   "TotalVariationRecon wires G=%s, proxg=%s" % (_show(G), _show(o.env.get("__kw_proxg"))), stmt="E2:tv:%s" % cond_text(o.conds))
+
+
+def _inherited_routing(run, M, tier):
+    """C16's anchors include sigpy/app.py: the recon apps are thin wrappers around LinearLeastSquares, so the routing rules of C14 (which operator, prox,
+    step sizes and regularisation reach the solver on every option path) are part of this property's check as well"""
+    from . import c14
+    c14.check(run, M, tier)
 
 
 def _e4(run, M):
